@@ -66,6 +66,9 @@ package route
 //@   loop 1 invariant rangeindex >= 1 && t.Opts["deny"] != "" ==> hasKey(t.accessRules, "deny:ip")
 //@   loop 1 invariant !(t.Opts["allow"] != "" && t.Opts["deny"] != "")
 //@
+//@ // the CIDR text a rule element stands for: a bare address is the single-address block /32 (IPv4) or /128 (IPv6)
+//@ spec fun ruleText(v string) string = strContains(v, "/") ? v : (ipTo4(parseIP(v)) != nil ? ipString(parseIP(v)) + "/32" : ipString(parseIP(v)) + "/128")
+//@
 //@ func (*Target).parseAccessRule
 //@   props C12
 //@   requires t != nil && (allowDeny == "allow" || allowDeny == "deny")
@@ -75,6 +78,8 @@ package route
 //@   ensures result == nil && allowDeny == "allow" ==> hasKey(t.accessRules, "allow:ip")
 //@   ensures result == nil && allowDeny == "deny" ==> hasKey(t.accessRules, "deny:ip")
 //@   ensures forall k string :: old(t.accessRules) != nil && hasKey(old(t.accessRules), k) ==> t.accessRules == old(t.accessRules) && hasKey(t.accessRules, k)
+//@   // every block added to a rule list is exactly what net.ParseCIDR makes of the element's text
+//@   at "t.accessRules[accessTag] = append(t.accessRules[accessTag]," assert typeIs(t.accessRules[accessTag][len(t.accessRules[accessTag])-1], *net.IPNet) && unbox(t.accessRules[accessTag][len(t.accessRules[accessTag])-1], *net.IPNet) == cidrNet(ruleText(trimSpace(temps[1])))
 //@   loop 1 invariant t.accessRules != nil && (old(t.accessRules) != nil ==> t.accessRules == old(t.accessRules))
 //@   loop 1 invariant rangeindex >= 0 && allowDeny == "allow" ==> hasKey(t.accessRules, "allow:ip")
 //@   loop 1 invariant rangeindex >= 0 && allowDeny == "deny" ==> hasKey(t.accessRules, "deny:ip")
@@ -388,6 +393,10 @@ package route
 //@ // accepts(text): fabio's own parser takes the text (definition: Parse returns no error on it; Parse reads
 //@ // nothing but its argument and the package's compiled expressions, which are never reassigned)
 //@ spec fun accepts(text string) bool
+//@ // singleAdd(text): the text parses to exactly one definition and that is a 'route add'
+//@ spec fun singleAdd(text string) bool
+//@ // tableAccepts(text): a routing table can be built from the text alone (target URL, path glob, ... are usable)
+//@ spec fun tableAccepts(text string) bool
 //@
 //@ // the compiled expressions of the parser are package variables initialised once; their group counts are what
 //@ // the literals show (checked on the real values by the bounded stand-in route_regexps)
@@ -400,6 +409,7 @@ package route
 //@   // no configuration text can make the parser panic
 //@   ensures nopanic
 //@   ensures [assumed] (err == nil) == accepts(old(bufOf[in]))
+//@   ensures [assumed] err == nil ==> (len(defs) == 1 && defs[0].Cmd == "route add") == singleAdd(old(bufOf[in]))
 //@   ensures [assumed] forall x *bytes.Buffer :: x != in ==> bufOf[x] == old(bufOf[x])
 //@   // an error never comes with a partial result; every parsed definition is usable
 //@   ensures err != nil ==> defs == nil
@@ -887,6 +897,7 @@ package route
 //@   requires b != nil && buildReady()
 //@   assigns bufOf, builtFrom, mapsOf(map[string]Routes), elems(*Route), Route.Targets, Route.wTargets, elems(*Target), Target.Weight, Target.FixedWeight, Target.accessRules, elems(interface{}), mapsOf(map[string][]interface{}), ioWrites, lastWrite
 //@   sets builtFrom[t] = old(bufOf[b])
+//@   ensures [assumed] (err == nil) == tableAccepts(old(bufOf[b]))
 //@   ensures nopanic
 //@   // an invalid configuration yields an error and NO table (never a partial one): the caller keeps the last good table
 //@   ensures err != nil ==> t == nil
